@@ -6,7 +6,7 @@ from traits.adaptation.api import (AdaptationError, AdaptationManager,
                                    get_global_adaptation_manager,
                                    set_global_adaptation_manager)
 from traits.api import (AdaptsTo, BaseInstance, HasTraits, Instance,
-                        Supports, TraitError)
+                        PrototypedFrom, Supports, TraitError)
 
 LEVEL = "exploration"
 RULE = ("per type universe: every sequence (= multiset in every registration "
@@ -117,7 +117,9 @@ UNIVERSES = {
             "targets": [IP, IQ, W]},
     "falsy": {"types": [S0, S1, X, Z], "sources": [S1], "targets": [Z]},
 }
-KINDS = ("adapter", "none")
+#: "cond": a conditional factory that refuses the bare source object and
+#: accepts anything that is itself an adapter
+KINDS = ("adapter", "none", "cond")
 
 
 def concrete(tp):
@@ -145,6 +147,10 @@ def make_factory(idx, g, kind):
     cls = concrete(g)
     if kind == "none":
         return lambda adaptee: None
+    if kind == "cond":
+        return lambda adaptee: (cls(adaptee, idx)
+                                if getattr(adaptee, "offer", None) is not None
+                                else None)
     return lambda adaptee: cls(adaptee, idx)
 
 
@@ -173,7 +179,9 @@ def reference(offers, src_type, target):
             if i in used or not provides(cur_type, f):
                 continue
             p2 = path + [i]
-            ok = all(offers[j][2] == "adapter" for j in p2)
+            ok = all(offers[j][2] == "adapter" or
+                     (offers[j][2] == "cond" and pos > 0)
+                     for pos, j in enumerate(p2))
             if provides(g, target):
                 if ok:
                     good.append(tuple(p2))
@@ -302,6 +310,10 @@ def trait_checks(ctx, uni, offers, src_type, target):
             ada = AdaptsTo(target)
             ins = Instance(target, adapt="yes")
             bas = BaseInstance(target, adapt="yes")
+
+        class Holder(HasTraits):
+            proto = Instance(H, ())
+            ada = PrototypedFrom("proto")
         case = {"universe": uni,
                 "offers": [(f.__name__, g.__name__, k) for f, g, k in offers],
                 "source": src_type.__name__, "target": target.__name__}
@@ -349,6 +361,21 @@ def trait_checks(ctx, uni, offers, src_type, target):
                 if name == "sup" and h.sup_ is not obj:
                     ctx.violation("C17:trait-shadow:sup", "Supports shadow "
                                   "is not the original", **case)
+        # AdaptsTo reached through PrototypedFrom: the deferring object
+        # stores the original value, as the trait itself would
+        if want is not None:
+            ctx.tr()
+            d = Holder()
+            try:
+                d.ada = obj
+                if d.ada is not obj:
+                    ctx.violation("C17:trait-stored:ada-prototyped",
+                                  "AdaptsTo through PrototypedFrom stored %r "
+                                  "instead of the original" % (d.ada,),
+                                  **case)
+            except Exception as e:
+                ctx.violation("C17:trait-raises:ada-prototyped",
+                              "assignment raised %r" % (e,), **case)
         # re-assignment of the same object after the offers changed must
         # re-apply adapt() (the shadow follows the current registrations)
         if want is not None and not provides(src_type, target):
@@ -392,11 +419,17 @@ def run_shard(ctx, shard, tier):
         maxn += 1
     first = offs[shard["first"]]
     # thorough linear with 4 offers: restrict later offers to adapter kind
+    plain_offs = [o for o in offs if o[2] != "cond"]
+    adapters = [o for o in offs if o[2] == "adapter"]
     for n in range(1, maxn + 1):
-        pool = offs
+        # the last of three (or more) offers is an unconditional adapter; a
+        # "cond" offer may stand first or second
+        pools = [offs] * (n - 1)
+        if n >= 3:
+            pools = [offs] * (n - 2) + [adapters]
         if n >= 4 or (tier == "thorough" and n >= 3 and uni != "linear"):
-            pool = [o for o in offs if o[2] == "adapter"]
-        for rest in itertools.product(pool, repeat=n - 1):
+            pools = [adapters] * (n - 1)
+        for rest in itertools.product(*pools):
             offers = (first,) + rest
             ctx.case({"universe": uni, "offers": [
                 (f.__name__, g.__name__, k) for f, g, k in offers]})
